@@ -1,6 +1,6 @@
 """C02 — Unsatisfiable only for models without solutions (structural clauses U1–U5b)."""
 from ..main import run_rule
-from ..flow import resolver, peel, guards_of, rel_fact, aggregates, show, call_guarded, root_local
+from ..flow import resolver, peel, guards_of, rel_fact, aggregates, show, call_guarded, root_local, edge_facts
 from ..symexec import SymExec, variant_name
 from ..facts import AnchorMissing
 from . import shared, C10
@@ -364,6 +364,169 @@ def all_edge_facts_of(f):
             yield fa
 
 
+def u16(led, rid, ctx):
+    """routing TABLE of conflict analysis: a predicate entering the working nogood is dropped when it
+    holds at the root, queued for resolution when it is of the current level (1-UIP) / not a decision
+    (all-decision), and otherwise becomes part of the learned nogood; decided over all worlds
+    (level of the predicate, mode, decision?)"""
+    from ..predalg import ev, Unknown
+    lib = ctx.lib
+    f = lib.method("ResolutionResolver", "add_predicate_to_conflict_nogood")
+    paths = [p for p in SymExec(f, max_paths=800, max_visits=1).run() if not p.diverged]
+    CUR = 5
+    n = 0
+    for mode in ("OneUIP", "AllDecision"):
+        for level in (0, 2, CUR):
+            for dec in (0, 1):
+                if level == 0 and dec:
+                    continue
+                def leaf(e):
+                    if e.k == "call":
+                        nm = e.a.name
+                        if nm in ("unwrap_or_else", "unwrap", "expect") and any(
+                                c.name == "get_decision_level_for_predicate" for c in e.calls()):
+                            return level
+                        if nm == "get_decision_level":
+                            return CUR
+                        if nm == "is_decision_predicate":
+                            return dec
+                    return None
+                effects = set()
+                for p in paths:
+                    ok = True
+                    for cond, val, others in p.conds:
+                        if cond.k == "discr":
+                            if (cond.b or "").endswith("AnalysisMode") and variant_name(f, cond, val, others) != mode:
+                                ok = False
+                            continue
+                        try:
+                            w = ev(cond, leaf)
+                        except Unknown:
+                            continue
+                        if (val is not None and w != val) or (val is None and others and w in others):
+                            ok = False
+                    if not ok:
+                        continue
+                    pushed = any(c.name == "push" and "processed_nogood_predicates" in show(a[0]) for c, a, r in p.calls)
+                    queued = any(c.name in ("get_id", "restore_key") for c, a, r in p.calls)
+                    effects.add("nogood" if pushed else "queue" if queued else "dropped")
+                if level == 0:
+                    want = "dropped"
+                elif mode == "OneUIP":
+                    want = "queue" if level == CUR else "nogood"
+                else:
+                    want = "nogood" if dec else "queue"
+                n += 1
+                led.check(effects == {want}, rid, "route:%s:level=%s:decision=%d" % (
+                          mode, {0: "root", 2: "earlier", CUR: "current"}[level], dec), f.span, "-> %s" % want,
+                          "add_predicate_to_conflict_nogood (%s) sends a predicate of %s that is %sa decision to %s "
+                          "instead of %s: %s" % (mode, {0: "the root level", 2: "an earlier level", CUR: "the current level"}[level],
+                                                 "" if dec else "not ", sorted(effects) or "nowhere", want,
+                                                 {"dropped": "a root fact must not enter the nogood",
+                                                  "queue": "it has to be resolved away, the learned nogood is not asserting otherwise",
+                                                  "nogood": "resolving it away needs its reason at a level the analysis does not visit"}[want]))
+    led.floor(rid, "routing worlds", n, 10)
+
+
+def u17(led, rid, ctx):
+    """the learned nogood is ordered by trail position (latest first) and the backjump level is the
+    level of its second predicate, 0 for a unit nogood; the 1-UIP loop runs while more than one
+    predicate of the current level is queued"""
+    lib = ctx.lib
+    f = lib.method("ResolutionResolver", "extract_final_nogood")
+    R = resolver(f)
+    cfg = f.cfg
+    sorts = [c for c in f.calls if c.name in ("sort_by_key", "sort_unstable_by_key", "sort_by_cached_key")]
+    revs = f.calls_named("reverse")
+    ok = False
+    for s_ in sorts:
+        clo = [x for x in R.operand(s_.args[1]).walk() if x.k == "closure"] if len(s_.args) > 1 else []
+        key_ok = False
+        for x in clo:
+            g = lib.fns.get(x.a)
+            if g and any(c.name == "get_trail_position" for c in g.calls):
+                key_ok = True
+        if key_ok and any(cfg.dominates(s_.bb, r.bb) for r in revs):
+            ok = True
+    led.check(ok, rid, "final-nogood:ordered-by-trail-position", f.span, "sort_by_key(trail position) then reverse",
+              "extract_final_nogood no longer orders the learned nogood by decreasing trail position: the "
+              "asserting predicate is not at index 0 and the backjump level is read from the wrong predicate")
+    # backjump level
+    aggs = aggregates(f, "LearnedNogood")
+    led.check(bool(aggs), rid, "final-nogood:built", f.span, "", "extract_final_nogood builds no LearnedNogood")
+    for b, s_, st in aggs:
+        e = R.rvalue(st["rv"])
+        lv = None
+        for fe, name in zip(e.c, e.d or []):
+            if name == "backjump_level":
+                lv = fe
+        shown = show(lv) if lv is not None else "?"
+        good = False
+        if lv is not None:
+            alts = lv.a if lv.k == "phi" else [lv]
+            consts = [a for a in alts if peel(a, calls=None).k == "const"]
+            lvls = [a for a in alts if any(c.name == "get_decision_level_for_predicate" for c in a.calls())]
+            idx_ok = False
+            for a in lvls:
+                for x in a.walk():
+                    if x.k == "call" and x.a.name == "index":
+                        from ..facts import op_const_int
+                        ci = op_const_int(x.a.args[1]) if len(x.a.args) > 1 else None
+                        if ci == 1:
+                            idx_ok = True
+                    if x.k == "proj" and any(pr.get("const_index") == 1 for pr in (x.b or [])):
+                        idx_ok = True
+            good = len(alts) == 2 and len(consts) == 1 and peel(consts[0], calls=None).a == 0 and idx_ok
+            # the guard: len > 1
+            if good:
+                gd = False
+                for bb in cfg.edges:
+                    for fa in edge_facts(f, bb):
+                        rf = rel_fact(fa)
+                        if rf and rf[0] in ("Gt", "Ge", "Lt", "Le") and \
+                                any(x.k == "call" and x.a.name == "len" for x in rf[1].walk()):
+                            k_ = peel(rf[2], calls=None)
+                            if k_.k == "const" and ((rf[0] == "Gt" and k_.a == 1) or (rf[0] == "Ge" and k_.a == 2)):
+                                gd = True
+                good = gd
+        led.check(good, rid, "final-nogood:backjump-level", f.span,
+                  "level of predicates[1] if len > 1 else 0",
+                  "the backjump level of a learned nogood is %s; it must be the decision level of the second "
+                  "predicate (in trail order) when there is one and 0 for a unit nogood: jumping elsewhere the "
+                  "nogood does not propagate its asserting predicate (or propagates it at a level from which "
+                  "it is undone while still implied)" % shown[:160])
+    # loop condition of resolve_conflict
+    g = lib.method("ResolutionResolver", "resolve_conflict", "*")
+    rows = {}
+    Rg = resolver(g)
+    switched = set()
+    for b in g.blocks:
+        t = b["term"]
+        if t["t"] == "switch":
+            pl = t["discr"].get("move") or t["discr"].get("copy")
+            if pl and not pl["proj"]:
+                switched.add(pl["local"])
+    for b in g.blocks:
+        for st in b["stmts"]:
+            if st["s"] != "assign" or st["rv"]["r"] != "binop" or st["dst"]["proj"]:
+                continue
+            if st["dst"]["local"] not in switched:
+                continue
+            e = Rg.rvalue(st["rv"])
+            if e.a not in ("Gt", "Ge") or not any(x.k == "call" and x.a.name == "num_nonremoved_elements" for x in e.b.walk()):
+                continue
+            k_ = peel(e.c, calls=None)
+            modes = [h.val for h in guards_of(g, b["id"]) if h.kind == "variant" and h.val in ("OneUIP", "AllDecision")]
+            if k_.k == "const" and modes:
+                rows[modes[-1]] = (e.a, k_.a)
+    want = {"OneUIP": ("Gt", 1), "AllDecision": ("Gt", 0)}
+    norm = {m: (("Gt", k - 1) if op == "Ge" else (op, k)) for m, (op, k) in rows.items()}
+    for m, w in want.items():
+        led.check(norm.get(m) == w, rid, "resolve-loop:%s" % m, g.span, "while queued > %d" % w[1],
+                  "the %s resolution loop runs while the number of queued predicates is %s (expected > %d)"
+                  % (m, norm.get(m), w[1]))
+
+
 def run(ctx, led):
     run_rule(led, "U1", "Infeasible is declared only for a conflict at decision level 0", u1, ctx)
     run_rule(led, "U2", "no fabricated reason reference; None reason only for decisions, assumptions, "
@@ -389,3 +552,5 @@ def run(ctx, led):
     from . import watchrules
     run_rule(led, "U14", "WAKE: each watcher loop of the nogood propagator looks at exactly the watchers whose predicate became true (decided on all old/new domain pairs of a 5-value universe)", watchrules.wake, ctx)
     run_rule(led, "U15", "READD: loops that copy nogood watchers back run to the number of watchers", watchrules.readd, ctx)
+    run_rule(led, "U16", "routing TABLE of conflict analysis (root facts dropped, current level / non-decisions resolved, the rest learned)", u16, ctx)
+    run_rule(led, "U17", "learned nogood ordered by trail position, backjump level = level of the second predicate, loop bound per analysis mode", u17, ctx)
